@@ -23,7 +23,7 @@ func alphabet(p string) []string { return []string{p, p + "_", p + "_A"} }
 
 // reservedPool: identifiers a user function "called elsewhere" may have: candidates of newName.
 func reservedPool(p string) []string {
-	return []string{p + "_", p + "_A", p + "_Ab", p + "_1", p + "_i", p + "_in", p + "_2"}
+	return []string{p, p + "_", p + "_A", p + "_Ab", p + "_1", p + "_i", p + "_in", p + "_2"}
 }
 
 type opt struct {
@@ -43,7 +43,7 @@ func hintOf(t TypeSpec) string {
 
 // candidates: the first names newName tries after the bare prefix, for a first argument type with this hint.
 func candidates(p, hint string) []string {
-	out := []string{p + "_"}
+	out := []string{p, p + "_"} // the bare prefix is the first candidate
 	rs := []rune(hint)
 	for i := 1; i <= len(rs); i++ {
 		out = append(out, p+"_"+string(rs[:i]))
@@ -170,6 +170,21 @@ func ExhaustiveC11(r *rand.Rand, k int, thorough bool) []*Case {
 		ka = 3
 	}
 	enum("exhaustive", opts, k, func([]opt) bool { return true })
+	// one or two names of the equal plugin used 4 (5) times over the three types: a name renamed by -autoname
+	// for several type lists, earlier lists coming again (all sequences)
+	var optsR1, optsR2 []opt
+	for t := 0; t < 3; t++ {
+		optsR1 = append(optsR1, opt{"equal", 0, t, 2})
+		optsR2 = append(optsR2, opt{"equal", 0, t, 2}, opt{"equal", 1, t, 2})
+	}
+	enum("exhaustive-repeat", optsR1, 5, func(cur []opt) bool { return len(cur) >= 4 })
+	enum("exhaustive-repeat", optsR2, 4, func(cur []opt) bool {
+		two := false
+		for _, o := range cur {
+			two = two || o.name == 1
+		}
+		return len(cur) == 4 && two
+	})
 	// quick tier: all sequences of <= 2 calls, and the sequences of 3 calls over ONE type (a list and its
 	// proper prefix need the same element type to be confused); thorough tier: all sequences of <= 3 calls
 	enum("exhaustive-arity", optsA, ka, func(cur []opt) bool {
@@ -372,7 +387,7 @@ func RichC12(r *rand.Rand, n int) []*Case {
 		}
 		id := func(s string) string { return fmt.Sprintf("g%d-%s", g, s) }
 		out = append(out, mk(id("default"), "default", "derive", nil))
-		for _, p := range []string{"derivX", "gen", "deriveNew", "drv"} {
+		for _, p := range []string{"derivX", "gen", "deriveNew", "drv", "Derive"} {
 			out = append(out, mk(id("prefix-"+p), "global:"+p, p, nil))
 		}
 		// per-plugin overrides, prefix-free: distinct first letters
